@@ -22,8 +22,9 @@
 From Coq Require Import ZArith List Bool QArith Qcanon Sorted.
 From SG Require Import Base.QcUtil Model.CombiScheme Model.RefTree Model.DimWise Model.DimWiseInterp
      Proofs.SchemeInv Proofs.CombiAbstract Proofs.RefTreeInv Proofs.RefTreeCheck Proofs.DimWiseInv
-     Proofs.DimWiseStripes Proofs.DimWiseCombi Proofs.C03Main Proofs.DimWiseNodal Proofs.DimWiseFuel Proofs.C03Any Proofs.DimWiseCacheP.
-From SG Require Import Model.DimWiseInstall Model.DimWiseCache.
+     Proofs.DimWiseStripes Proofs.DimWiseCombi Proofs.C03Main Proofs.DimWiseNodal Proofs.DimWiseFuel Proofs.C03Any Proofs.DimWiseCacheP Proofs.InterpSpec Proofs.NodalExact Proofs.DimWiseFloatP.
+From SG Require Model.StdCombi.
+From SG Require Import Model.DimWiseInstall Model.DimWiseCache Model.DimWiseFloat Model.DimWiseWire.
 Import ListNotations.
 Open Scope Z_scope.
 
@@ -284,3 +285,49 @@ Proof.
   - intro f. eapply (C03_nodal_exact_reachable 1 1 2 ex_a2 ex_b ex_or ex_steps2 st0 st);
       [repeat constructor | exact E0 | exact E | exact Hin | exact H3].
 Qed.
+
+(* ---------------------------------------------------------------------------------------------------------- *)
+(* the interpolation model pinned to its mathematical definition, for EVERY grid (phase 3, item 2).
+   interp1 - the 1D building block of StdCombi.interpN, hence of dw_comp_interp / dw_combi_interp which C03_nodal_exact speaks about
+   and which the harness compares with sa(points) - IS the piecewise-linear interpolant: on every cell [u, v] of a strictly sorted
+   grid it is the chord through (u, g u) and (v, g v) *)
+Theorem C03_interp1_is_piecewise_linear : forall g pre u v post x,
+  StronglySorted Qclt (pre ++ u :: v :: post) -> (u <= x)%Qc -> (x <= v)%Qc ->
+  StdCombi.interp1 (pre ++ u :: v :: post) g x = (g u + (x - u) / (v - u) * (g v - g u))%Qc.
+Proof. exact interp1_piecewise_linear. Qed.
+Print Assumptions C03_interp1_is_piecewise_linear.
+
+(* ... and the component interpolant is the TENSOR PRODUCT of these 1D interpolation functionals on the stripes of the
+   component (the functionals Proofs/NodalExact.v works with): every state, component, function and point *)
+Theorem C03_component_interpolant_is_tensor_of_1d : forall o st a b lv f x, length x = length lv ->
+  dw_comp_interp o st a b lv f x
+  = appT Qc (zipE Qc (dw_Efam o st 0 x) lv) (StdCombi.masked (o_boundary o) a b f).
+Proof. exact dw_comp_interp_is_tensor. Qed.
+Print Assumptions C03_component_interpolant_is_tensor_of_1d.
+
+(* non-vacuity: on the grid 0 < 1/4 < 1/2 < 1 the interpolant of g at 3/8 is the chord value between 1/4 and 1/2 *)
+Example C03_interp1_nonvacuous : forall g : Qc -> Qc,
+  StdCombi.interp1 [q 0 1; q 1 4; q 1 2; q 1 1] g (q 3 8) = (g (q 1 4) + (q 3 8 - q 1 4) / (q 1 2 - q 1 4) * (g (q 1 2) - g (q 1 4)))%Qc.
+Proof.
+  intro g. apply (C03_interp1_is_piecewise_linear g [q 0 1] (q 1 4) (q 1 2) [q 1 1] (q 3 8)).
+  - repeat constructor; vm_compute; reflexivity.
+  - vm_compute. discriminate.
+  - vm_compute. discriminate.
+Qed.
+
+(* ---------------------------------------------------------------------------------------------------------- *)
+(* the float-decided rounding of coarsening version 3 (phase 3, item 3): `sv / dim - int(sv / dim) > d / dim` evaluated in IEEE
+   binary64 with Coq's primitive floats (v3_dec_float; v3_int_ok certifies in binary64 that int() of the quotient is the integer
+   quotient).  For dim <= 6 and 0 <= sv <= 64 the decision function of the model options IS this evaluation, from a table computed
+   by Coq, whatever the harness supplies beyond the bound.  _bounded: finite domain *)
+Theorem C03_version3_rounding_is_binary64_bounded : forall version rebal boundary margin sf dim exc_rb exc_v3 (sv d : nat),
+  (1 <= dim <= V3_DIM_BOUND)%nat -> (sv <= V3_SV_BOUND)%nat -> (d < dim)%nat ->
+  (forall t, In t exc_v3 -> (Z.of_nat V3_SV_BOUND < fst t)%Z) ->
+  o_v3 (mk_opts version rebal boundary margin sf dim exc_rb exc_v3) (Z.of_nat sv) d = v3_dec_float dim (Z.of_nat sv) d /\
+  v3_int_ok dim (Z.of_nat sv) = true.
+Proof. exact mk_opts_v3_test_is_binary64. Qed.
+Print Assumptions C03_version3_rounding_is_binary64_bounded.
+
+(* non-vacuity: the tables are not all empty / the float test is a real test: dim 3, sv = 5, d = 1: 5/3 - 1 = 0.666.. > 1/3 *)
+Example C03_v3_float_nonvacuous : v3_dec_float 3 5 1 = true /\ v3_dec_float 3 4 1 = false /\ v3_int_ok 3 5 = true.
+Proof. vm_compute. repeat split; reflexivity. Qed.
